@@ -89,7 +89,7 @@ PROPS["C09"] = {
             "(final TX map, fired ids, match data, interruption, HIGHEST_SEVERITY, message expansion) and the accounting identity "
             "tx.acc == sum(increment x observed matches); non-trivial = some rule carrying actions matched >= 2 values; distinct = distinct encodings",
     "essential": {"all": ["rule>=2-matches", "chain-starter>=2-matches", "multimatch>=2-matches", "macro-key", "signed-macro-operand", "threshold-rule-blocked",
-                          "severity-set", "accounting-identity-checked", "msg-macro-checked", "engine:DetectionOnly"]},
+                          "severity-set", "accounting-identity-checked", "msg-macro-checked", "engine:DetectionOnly", "on-recycled-transaction"]},
     "assumptions": COMMON_ASSUME + [
         "order-sensitive effects over several matches (assigning %{MATCHED_VAR}) and arithmetic on non-numeric values are not generated",
         "MATCHED_VAR* macros inside SecAction are not generated (undocumented)",
@@ -265,7 +265,7 @@ PROPS["C17"] = {
     "essential": {"all": ["outcome-changed:removeById", "outcome-changed:removeByTag", "outcome-changed:removeByMsg", "outcome-changed:updTargetById",
                           "outcome-changed:updTargetByTag", "outcome-changed:updActionById", "outcome-changed:ctl", "several-ids", "id-range",
                           "regex-key-target", "positive-target", "chain-in-base", "second-transaction-checked", "ctl:ruleRemoveTargetByTag", "ctl:ruleRemoveByMsg",
-                          "removal-with-skip-window"]},
+                          "removal-with-skip-window", "outcome-changed:updTagCtl"]},
     "assumptions": COMMON_ASSUME + [
         "updates of id/phase are not generated (documented as unsupported); ctl keys are lower-case (C01 owns key case)",
     ],
@@ -327,7 +327,7 @@ PROPS["C16"] = {
     "essential": {"all": ["delimiter-in-key", "pipe-in-regex-key", "delimiter-in-operator-argument", "delimiter-in-action-value", "escaped-quote-in-action-value",
                           "chain", "line-continuation", "split-across-included-files", "near-miss:del-quote", "near-miss:dup-open-quote", "near-miss:del-pipe",
                           "near-miss:dup-pipe", "near-miss:dup-comma", "near-miss:trailing-comma", "near-miss:del-id-colon", "near-miss:del-blank",
-                          "line-longer-than-64k", "text-ends-with-continuation", "quoted-key-same-rule"]},
+                          "line-longer-than-64k", "text-ends-with-continuation", "quoted-key-same-rule", "nested-includes-in-different-directories"]},
     "assumptions": COMMON_ASSUME + [
         "the domain is what the grammar can carry: keys without blank, '|' and single quote; operator arguments without a backslash directly before a double quote or at the end, no leading/trailing blank, no line break; action values in which every single quote is escaped",
         "chain links receive the built-in phase-2 default actions when they have an action string (TODO in rule_parser.go), which the expectation reproduces",
@@ -348,7 +348,7 @@ PROPS["C18"] = {
             "flush between them, or any block",
     "essential": {"all": ["blocked-in-request-phase", "request-body-limit-reject", "blocked-late", "passed-through", "request-body-at-limit",
                           "response-body-at-limit", "writes-with-flush-between", "partial-request-body-spliced", "partial-response-body-released",
-                          "real-server", "chunked-request", "no-body-status", "implicit-write-header"]},
+                          "real-server", "chunked-request", "no-body-status", "implicit-write-header", "file-reader-on-real-server"]},
     "assumptions": COMMON_ASSUME + [
         "deny is the only disruptive action generated (status mapping of drop/redirect is not documented for the middleware)",
         "a phase-4 rule is expected to act only when the response body is accessible and its MIME type selected (otherwise the middleware never runs that phase)",
@@ -395,7 +395,7 @@ PROPS["C06"] = {
             "-tags coraza.rule.multiphase_evaluation); oracle = no race report (GORACE halt_on_error), no panic, no deadlock (120 s), every "
             "concurrent transaction's canonical outcome equals the outcome of the same request run alone on a fresh WAF; non-trivial = at "
             "least two transactions were in flight together (measured)",
-    "essential": {"all": ["overlap-observed", "rule-with-spare-exception-capacity", "runtime-target-exclusion", "shared-pm", "chain", "concurrent-waf-builds"]},
+    "essential": {"all": ["overlap-observed", "rule-with-spare-exception-capacity", "runtime-target-exclusion", "shared-pm", "chain", "concurrent-waf-builds", "audit-index-write-fails"]},
     "assumptions": COMMON_ASSUME + [
         "the Go scheduler is not controlled: the race detector reports happens-before violations on the paths the workload drives, not on all interleavings",
         "a data race aborts the process; the workload being run is written to disk first and becomes the replay file together with the shard log",
